@@ -235,8 +235,46 @@ def mm(a, b):
     return [[sum(a[i][k] * b[k][j] for k in range(len(b))) for j in range(len(b[0]))] for i in range(len(a))]
 
 
+def cell_index_tie(ctx):
+    """tie of Model/Lib/MatrixIndex.lean (`cellSlice`, theorems C19.cell_slice_single / cell_slice_refused): the cell that
+    `m[k, j] = v` and `m[i, k] = v` write, for every integer k on and beyond both ends of the axis"""
+    bad = n_cases = 0
+    for n in range(1, ctx.n(5, 8)):
+        ks = list(range(-n - 2, n + 2))
+        resp = ctx.driver.ask({'cmd': 'conv', 'fn': 'matrix_cell_slice', 'cases': [[n, k, 0] for k in ks]})
+        if not resp.get('ok'):
+            raise RuntimeError('matrix_cell_slice: %s' % resp)
+        for axis in (0, 1):
+            for k, want in zip(ks, resp['vals']):
+                pyrtl.reset_working_block()
+                m = M.Matrix(n if axis == 0 else 2, n if axis == 1 else 2, 4, value=[[1] * (n if axis == 1 else 2)] * (n if axis == 0 else 2))
+                before = [[m[i, j] for j in range(m.columns)] for i in range(m.rows)]
+                key = (k, 1) if axis == 0 else (1, k)
+                try:
+                    m[key] = pyrtl.Const(9, 4)
+                    after = [[m[i, j] for j in range(m.columns)] for i in range(m.rows)]
+                    changed = [(i, j) for i in range(m.rows) for j in range(m.columns) if after[i][j] is not before[i][j]]
+                    got = ('cells', changed)
+                except pyrtl.PyrtlError:
+                    got = ('refused', None)
+                exp = ('refused', None) if want is None else ('cells', [(want[0], 1) if axis == 0 else (1, want[0])])
+                if want is not None and want[1] != want[0] + 1:
+                    exp = ('model-slice', want)
+                n_cases += 1
+                ctx.evaluations += 1
+                if got != exp:
+                    bad += 1
+                    ctx.violation('matrix-cell-index', 'm[%r] = value on a matrix with %d %s: the code %s, the index denotes %s' % (
+                        key, n, 'rows' if axis == 0 else 'columns', 'refuses it' if got[0] == 'refused' else 'writes cells %r' % (got[1],),
+                        'no cell' if exp[0] == 'refused' else 'cell %r' % (exp[1],)), {'kind': 'cell-index', 'n': n, 'axis': axis, 'k': k})
+                    if bad >= 3:
+                        break
+    ctx.oblige('tie:Matrix.__setitem__ integer index = Lean MatrixIndex.cellSlice', bad == 0, '%d/%d (axis length, index) cases differ' % (bad, n_cases))
+
+
 def main(ctx):
     proofs_ok = proof_gate(ctx, gen_modules=[])
+    cell_index_tie(ctx)
     rng = ctx.rng
     shapes = [(1, 1), (1, 2), (2, 1), (2, 2), (2, 3), (3, 2), (3, 3), (1, 4), (4, 1), (4, 4)]
     nshapes = ctx.n(6, 10)
@@ -344,6 +382,24 @@ def main(ctx):
                 return a2
             run(ctx, 'setitem', [(r, c, ba), (1, 1, ba)], b_setitem, lambda a, b: [[(b[0][0] if (i, j) == (0, 0) else a[i][j])
                                                                                    for j in range(len(a[0]))] for i in range(len(a))])
+
+            # the last row / column through its negative index
+            def b_setitem_last(a, b):
+                a2 = a.copy()
+                a2[-1, -1] = b[0, 0]
+                return a2
+            run(ctx, 'setitem-negative-index', [(r, c, ba), (1, 1, ba)], b_setitem_last,
+                lambda a, b: [[(b[0][0] if (i, j) == (len(a) - 1, len(a[0]) - 1) else a[i][j]) for j in range(len(a[0]))] for i in range(len(a))])
+
+            # a single cell takes a 1x1 Matrix as well (the result of a row @ column product, of max(axis=...) ...)
+            ci, cj = rng.randrange(r), rng.randrange(c)
+            for ck in ((ci, cj), rng.choice([(ci - r, cj), (ci, cj - c), (ci - r, cj - c)])):
+                def b_setitem_m(a, b, ck=ck):
+                    a2 = a.copy()
+                    a2[ck[0], ck[1]] = b
+                    return a2
+                run(ctx, 'setitem-1x1-matrix', [(r, c, ba), (1, 1, ba)], b_setitem_m,
+                    lambda a, b, ci=ci, cj=cj: [[(b[0][0] if (i, j) == (ci, cj) else a[i][j]) for j in range(len(a[0]))] for i in range(len(a))])
 
             def b_put(a, b):
                 a2 = a.copy()
